@@ -753,6 +753,12 @@ pub struct Server {
     pub poll: Poll,
     poll_timeout: Option<Duration>, // TODO: make this configurable? this defaults to 1000 milliseconds for now
     scm_listeners: Option<Listeners>,
+    /// The slab slot (= mio token) every configured listener owns, from
+    /// Add*Listener to RemoveListener, activated or not. A deactivated
+    /// listener keeps its slot: the token stays recorded in its proxy, so the
+    /// slot must not be handed to another session, and a later
+    /// ActivateListener finds its listen session where it expects it.
+    listener_slots: HashMap<(i32, SocketAddr), Token>,
     scm: ScmSocket,
     sessions: Rc<RefCell<SessionManager>>,
     should_poll_at: Option<Instant>,
@@ -970,6 +976,7 @@ impl Server {
             poll_timeout: Some(Duration::from_millis(1000)), // TODO: make it configurable?
             poll,
             scm_listeners: None,
+            listener_slots: HashMap::new(),
             scm,
             sessions,
             should_poll_at: None,
@@ -2215,6 +2222,7 @@ impl Server {
                     );
                     self.base_sessions_count -= 1;
                 }
+                let slot_key: (i32, SocketAddr) = (remove.proxy, remove.address.into());
                 let response = match ListenerType::try_from(remove.proxy) {
                     Ok(ListenerType::Http) => self.http.borrow_mut().notify(request),
                     Ok(ListenerType::Https) => self.https.borrow_mut().notify(request),
@@ -2222,6 +2230,16 @@ impl Server {
                     Ok(ListenerType::Udp) => self.udp.borrow_mut().notify(request),
                     Err(_) => WorkerResponse::error(req_id, "Wrong variant ListenerType"),
                 };
+                // the listener is gone from its proxy: its slab slot, kept since
+                // Add*Listener (also while deactivated), is free again
+                if applied_to_state {
+                    if let Some(token) = self.listener_slots.remove(&slot_key) {
+                        let mut sessions = self.sessions.borrow_mut();
+                        if sessions.slab.contains(token.0) {
+                            sessions.slab.remove(token.0);
+                        }
+                    }
+                }
                 push_queue(response);
             }
             Some(RequestType::ActivateListener(ref activate)) => {
@@ -2324,6 +2342,7 @@ impl Server {
             return worker_response_error(req_id, "session list is full, cannot add a listener");
         }
 
+        let listener_address: SocketAddr = listener.address.into();
         let mut session_manager = self.sessions.borrow_mut();
         // The vacant entry's key is free now and becomes the listener's token.
         let slab_before = session_manager.slab.len();
@@ -2353,6 +2372,8 @@ impl Server {
                     "adding a listener must occupy exactly one slab slot"
                 );
                 self.base_sessions_count += 1;
+                self.listener_slots
+                    .insert((ListenerType::Http as i32, listener_address), token);
                 WorkerResponse::ok(req_id)
             }
             Err(e) => worker_response_error(req_id, format!("Could not add HTTP listener: {e}")),
@@ -2370,6 +2391,7 @@ impl Server {
             return worker_response_error(req_id, "session list is full, cannot add a listener");
         }
 
+        let listener_address: SocketAddr = listener.address.into();
         let mut session_manager = self.sessions.borrow_mut();
         let slab_before = session_manager.slab.len();
         debug_assert!(
@@ -2400,6 +2422,8 @@ impl Server {
                     "adding a listener must occupy exactly one slab slot"
                 );
                 self.base_sessions_count += 1;
+                self.listener_slots
+                    .insert((ListenerType::Https as i32, listener_address), token);
                 WorkerResponse::ok(req_id)
             }
             Err(e) => worker_response_error(req_id, format!("Could not add HTTPS listener: {e}")),
@@ -2417,6 +2441,7 @@ impl Server {
             return worker_response_error(req_id, "session list is full, cannot add a listener");
         }
 
+        let listener_address: SocketAddr = listener.address.into();
         let mut session_manager = self.sessions.borrow_mut();
         let slab_before = session_manager.slab.len();
         debug_assert!(
@@ -2443,6 +2468,8 @@ impl Server {
                     "adding a listener must occupy exactly one slab slot"
                 );
                 self.base_sessions_count += 1;
+                self.listener_slots
+                    .insert((ListenerType::Tcp as i32, listener_address), token);
                 WorkerResponse::ok(req_id)
             }
             Err(e) => worker_response_error(req_id, format!("Could not add TCP listener: {e}")),
@@ -2460,6 +2487,7 @@ impl Server {
             return worker_response_error(req_id, "session list is full, cannot add a listener");
         }
 
+        let listener_address: SocketAddr = listener.address.into();
         let mut session_manager = self.sessions.borrow_mut();
         let entry = session_manager.slab.vacant_entry();
         let token = Token(entry.key());
@@ -2470,6 +2498,8 @@ impl Server {
                     protocol: Protocol::UDPListen,
                 })));
                 self.base_sessions_count += 1;
+                self.listener_slots
+                    .insert((ListenerType::Udp as i32, listener_address), token);
                 WorkerResponse::ok(req_id)
             }
             Err(e) => worker_response_error(req_id, format!("Could not add UDP listener: {e}")),
@@ -2685,13 +2715,9 @@ impl Server {
                     );
                 }
 
-                {
-                    let mut sessions = self.sessions.borrow_mut();
-                    if sessions.slab.contains(token.0) {
-                        sessions.slab.remove(token.0);
-                        info!("removed listen token {:?}", token);
-                    }
-                }
+                // the listener stays configured under this token: its slab slot
+                // is kept (see `listener_slots`) until RemoveListener
+                let _ = token;
 
                 if deactivate.to_scm {
                     self.unblock_scm_socket();
@@ -2732,10 +2758,9 @@ impl Server {
                         deactivate, e
                     );
                 }
-                if self.sessions.borrow().slab.contains(token.0) {
-                    self.sessions.borrow_mut().slab.remove(token.0);
-                    info!("removed listen token {:?}", token);
-                }
+                // the listener stays configured under this token: its slab slot
+                // is kept (see `listener_slots`) until RemoveListener
+                let _ = token;
 
                 if deactivate.to_scm {
                     self.unblock_scm_socket();
@@ -2774,10 +2799,9 @@ impl Server {
                         deactivate, e
                     );
                 }
-                if self.sessions.borrow().slab.contains(token.0) {
-                    self.sessions.borrow_mut().slab.remove(token.0);
-                    info!("removed listen token {:?}", token);
-                }
+                // the listener stays configured under this token: its slab slot
+                // is kept (see `listener_slots`) until RemoveListener
+                let _ = token;
 
                 if deactivate.to_scm {
                     self.unblock_scm_socket();
@@ -2816,10 +2840,9 @@ impl Server {
                         deactivate, e
                     );
                 }
-                if self.sessions.borrow().slab.contains(token.0) {
-                    self.sessions.borrow_mut().slab.remove(token.0);
-                    info!("removed listen token {:?}", token);
-                }
+                // the listener stays configured under this token: its slab slot
+                // is kept (see `listener_slots`) until RemoveListener
+                let _ = token;
 
                 if deactivate.to_scm {
                     self.unblock_scm_socket();
